@@ -385,6 +385,8 @@ func runC17(c *Ctx) {
 	c.R.Floor("C17.primitive-result-unmodified", 5)
 	c17Shapes(c)
 	c17RegexpOwnPattern(c)
+	c17PositionsAreErrors(c, "C17.positions-reach-the-slice")
+	c17BoundsByCases(c, "C17.bounds-by-cases")
 }
 
 func c17Shapes(c *Ctx) {
@@ -953,6 +955,71 @@ func c18MaxPolarity(c *Ctx) {
 		if f == nil {
 			continue
 		}
+		// a loop that folds the list with the library's two-value Max / Min: one operand is the value folded so far
+		instrs(f, func(b *ssa.BasicBlock, i int, in ssa.Instruction) {
+			call, ok := in.(*ssa.Call)
+			if !ok || calleeOf(call) == nil {
+				return
+			}
+			name := calleeOf(call).String()
+			if name != decimalPath+".Max" && name != decimalPath+".Min" {
+				return
+			}
+			var l *Loop
+			for _, lp := range naturalLoops(f) {
+				if lp.Body[b] {
+					l = lp
+				}
+			}
+			if l == nil {
+				return
+			}
+			// the operands: elements stored into the variadic slice
+			var operands []ssa.Value
+			if len(call.Call.Args) == 1 {
+				if sl, ok := call.Call.Args[0].(*ssa.Slice); ok {
+					if a, ok := sl.X.(*ssa.Alloc); ok {
+						for _, ref := range *a.Referrers() {
+							if ia, ok := ref.(*ssa.IndexAddr); ok {
+								for _, r2 := range *ia.Referrers() {
+									if st, ok := r2.(*ssa.Store); ok {
+										operands = append(operands, st.Val)
+									}
+								}
+							}
+						}
+					}
+				}
+			}
+			if len(operands) == 0 {
+				return
+			}
+			// the accumulator: a header phi fed by this call's result
+			accOK := false
+			for _, hin := range l.Header.Instrs {
+				phi, ok := hin.(*ssa.Phi)
+				if !ok {
+					break
+				}
+				fed := false
+				for _, e := range phi.Edges {
+					for _, rt := range plainOrigins.Roots(e) {
+						if rt.V == ssa.Value(call) {
+							fed = true
+						}
+					}
+				}
+				if !fed {
+					continue
+				}
+				for _, op := range operands {
+					if op == ssa.Value(phi) {
+						accOK = true
+					}
+				}
+			}
+			c.R.Check(rule, spec.name+"-folds-with-running-result", c.P.InstrPos(in), accOK, "`"+spec.name+"` folds its arguments with the two-value "+name+": one operand must be the value folded so far (combining neighbours, e.g. nums[i-1] and nums[i], yields the extremum of the last two arguments only)")
+		})
 		instrs(f, func(b *ssa.BasicBlock, i int, in ssa.Instruction) {
 			bo, ok := in.(*ssa.BinOp)
 			if !ok {
@@ -971,6 +1038,89 @@ func c18MaxPolarity(c *Ctx) {
 			less := (bo.Op == token.LSS && z == 0) || (bo.Op == token.LEQ && z == -1) || (bo.Op == token.EQL && z == -1)
 			// receiver is the candidate element, argument the running best?
 			c.R.Check(rule, spec.name+"-comparison", c.P.InstrPos(in), (spec.gt && greater) || (!spec.gt && less), "`"+spec.name+"` replaces its running result on the wrong comparison outcome")
+			// one side of the comparison is the running result: a loop-carried value that is updated only when the
+			// comparison says so (comparing every element with a fixed one, e.g. the first, selects the last element that
+			// beats the first, not the extremum)
+			var l *Loop
+			for _, lp := range naturalLoops(f) {
+				if lp.Body[in.Block()] {
+					l = lp
+				}
+			}
+			if l == nil {
+				return
+			}
+			conditional := func(p *ssa.Phi) bool {
+				if p.Block() != l.Header {
+					return false
+				}
+				// some incoming value is defined under a condition inside the loop, another edge keeps the old value
+				keeps, changes := false, false
+				for i, e := range p.Edges {
+					pred := l.Header.Preds[i]
+					if !l.Body[pred] {
+						continue
+					}
+					if e == ssa.Value(p) {
+						keeps = true
+					} else {
+						changes = true
+					}
+				}
+				if keeps && changes {
+					return true
+				}
+				// or the back edge carries a phi of (old, new) formed inside the loop
+				for i, e := range p.Edges {
+					if !l.Body[l.Header.Preds[i]] {
+						continue
+					}
+					if q, ok := e.(*ssa.Phi); ok && q != p {
+						for _, qe := range q.Edges {
+							if qe == ssa.Value(p) {
+								return true
+							}
+						}
+					}
+				}
+				return false
+			}
+			dependsOnRunning := func(v ssa.Value) bool {
+				seen := map[ssa.Value]bool{}
+				var walk func(x ssa.Value, d int) bool
+				walk = func(x ssa.Value, d int) bool {
+					if x == nil || seen[x] || d > 8 {
+						return false
+					}
+					seen[x] = true
+					switch y := x.(type) {
+					case *ssa.Phi:
+						if conditional(y) {
+							return true
+						}
+						for _, e := range y.Edges {
+							if walk(e, d+1) {
+								return true
+							}
+						}
+					case *ssa.UnOp:
+						return walk(y.X, d+1)
+					case *ssa.IndexAddr:
+						return walk(y.Index, d+1)
+					case *ssa.Index:
+						return walk(y.Index, d+1)
+					}
+					return false
+				}
+				return walk(v, 0)
+			}
+			okRun := false
+			for _, a := range call.Call.Args {
+				if dependsOnRunning(a) {
+					okRun = true
+				}
+			}
+			c.R.Check(rule, spec.name+"-compares-with-running-result", c.P.InstrPos(in), okRun, "`"+spec.name+"` must compare each element with the best one found so far; here neither side of the comparison is the running result (each element is compared with a fixed one, so the result is the last element that beats it, not the extremum)")
 		})
 	}
 }
@@ -1017,6 +1167,10 @@ func c18BitOps(c *Ctx) {
 			}
 			if len(ops) == 2 && (c.derivedFrom(bo.X, ops[0]) && c.derivedFrom(bo.Y, ops[1]) || c.derivedFrom(bo.X, ops[1]) && c.derivedFrom(bo.Y, ops[0])) {
 				// the signed result must not be reinterpreted as unsigned on its way into the number
+				if bt, isBt := bo.Type().Underlying().(*types.Basic); isBt && bt.Info()&types.IsUnsigned != 0 {
+					why = "the operation is carried out on " + bo.Type().String() + " values and its bit pattern becomes the number: negative results (e.g. -8 | 3) turn into 2^64-k"
+					return
+				}
 				for _, ref := range *bo.Referrers() {
 					if cv, isCv := ref.(*ssa.Convert); isCv {
 						if bt, isBt := cv.Type().Underlying().(*types.Basic); isBt && bt.Info()&types.IsUnsigned != 0 {
@@ -1119,6 +1273,12 @@ func runC19(c *Ctx) {
 	// every sub-expression passes through hands a time.Time on unchanged (no instant is singled out as "unset")
 	if d := c.EvalDispatcher(); d != nil {
 		c16NormaliseAs(c, d, "C19.times-pass-unchanged", true)
+		// `useTimezone` reports an unknown zone through its error result: the call bridge hands a builtin's error on
+		if h := d.Handlers["CallExpression"]; h != nil {
+			if br := c11Bridge(c, h, d); br != nil {
+				c11ErrorWrapAs(c, br, "C19.builtin-errors-reach-the-caller")
+			}
+		}
 	}
 	const rule = "C19.wiring"
 	isZero := func(v ssa.Value) bool { n, ok := constIntArg(v); return ok && n == 0 }
